@@ -16,6 +16,7 @@ a command that ends in NO/BAD changes nothing.  Maildir: the process-kill varian
 from __future__ import annotations
 import asyncio
 import random
+import re
 
 from .common import l3, wire, backends, imapresp
 from .common.model import Model
@@ -93,7 +94,33 @@ def command_bytes(name):
     return line
 
 
-OTHER_OPS = [b'b UID STORE 101 +FLAGS (\\Deleted)', b'b EXPUNGE', b'b NOOP', b'b UID EXPUNGE 101', b'b STORE 1 +FLAGS (\\Flagged)', b'b COPY 1 other']
+OTHER_APPEND = b'b APPEND other {%d+}\r\n' % len(l3.msg_bytes(21)) + l3.msg_bytes(21)
+OTHER_OPS = [b'b UID STORE 101 +FLAGS (\\Deleted)', b'b EXPUNGE', b'b NOOP', b'b UID EXPUNGE 101', b'b STORE 1 +FLAGS (\\Flagged)', b'b COPY 1 other',
+             b'b UID COPY 104 other', b'b UID COPY 103:104 other', OTHER_APPEND]
+
+
+async def dump_uids(srv, name=b'other'):
+    """{uid: cid} of one mailbox through a fresh probe connection"""
+    p = wire.Client(srv, fd=98, name='probe2')
+    await p.start()
+    await p.send(b'p LOGIN u p\r\n')
+    await p.send(b'p EXAMINE ' + name + b'\r\n')
+    raw = await p.send(b'p UID FETCH 1:* (RFC822.SIZE)\r\n')
+    out = {}
+    for resp in imapresp.parse(raw):
+        f = imapresp.fetch_items(resp)
+        if f:
+            out[int(f[1][b'UID'].val)] = l3.cid_of_size(int(f[1][b'RFC822.SIZE'].val))
+    await p.eof()
+    return out
+
+
+def uid_list(spec):
+    out = []
+    for t in spec.split(b','):
+        lo, _, hi = t.partition(b':')
+        out += list(range(int(lo), int(hi or lo) + 1))
+    return out
 
 
 async def run_case(part, m, name, fault, k, others, explore=False):
@@ -130,17 +157,26 @@ async def run_case(part, m, name, fault, k, others, explore=False):
         moving = info.get('moving', [])
         single = moving[0] if len(moving) == 1 else None
         mstate = None
-        model_on = single is not None and fault != 'raise'
+        # the Faults model has no "second session copies the very message being moved" label: those runs are judged by the monitors only
+        model_on = single is not None and fault != 'raise' and not any(op.startswith(b'b COPY 1 ') for ops in others.values() for op in ops)
         if model_on:
             mstate = m.ask(f"faults reset {','.join(map(str, before['INBOX']))} {','.join(map(str, before['other'])) or '-'}")
         last = (single in before['INBOX'], single in before['other']) if single else None
         ever_missing = None
         cut = False
         mutated_before_cut = False
+        promised = []
         while 's0' in sched.parked:
             # the second session's operations at this park point
             for op in others.get(parks, []):
-                await b.send(op + b'\r\n')
+                raw_b = await b.send(op + b'\r\n')
+                # what the second session was promised: (uid in `other`, content)
+                mm = re.search(rb'b OK \[COPYUID \d+ (\S+) (\S+)\]', raw_b)
+                if mm:
+                    promised += [(d, u - 100, op) for u, d in zip(uid_list(mm.group(1)), uid_list(mm.group(2)))]
+                mm = re.search(rb'b OK \[APPENDUID \d+ (\d+)\]', raw_b)
+                if mm:
+                    promised.append((int(mm.group(1)), 21, op[:20]))
                 if model_on:
                     now = await dump(srv)
                     if single not in now['INBOX'] and last[0] and not (single in now['other'] and not last[1]):
@@ -192,6 +228,13 @@ async def run_case(part, m, name, fault, k, others, explore=False):
                 if b'EXPUNGE' in op or b'STORE 101' in op or b'COPY' in op:
                     other_touched.add('x')
         # ---- monitors
+        if promised:
+            held = await dump_uids(srv)
+            for d, cid, op in promised:
+                part.stat('second-session-promise-checked')
+                if held.get(d) != cid:
+                    part.violation('monitor', f'{name} ({fault}@{k}): the second session\'s {op.decode("latin1")!r} was acknowledged with uid {d} of `other` for message {cid}; '
+                                   f'afterwards that uid holds {held.get(d)} (mailbox: {held})', case, signature='second-session-lost')
         if ever_missing:
             part.violation('monitor', f'{name}: message {ever_missing[0]} was in neither mailbox at park point {ever_missing[1]} (fault {fault}@{k}, second session {case["others"]})', case,
                            signature='move-gap')
@@ -238,6 +281,9 @@ async def run_case(part, m, name, fault, k, others, explore=False):
 
 
 def expunged_by_other(others, upto, cid):
+    if cid in (2, 3):
+        # flagged \\Deleted by the fixture: any EXPUNGE of the second session takes them
+        return any(op.startswith(b'b EXPUNGE') for i in sorted(others) if i <= upto for op in others[i])
     if cid != 1:
         return False
     seen_del = False
